@@ -254,6 +254,18 @@ def standard_units(tier, with_circuit_format=True, sign_mode="full", thin=1):
         for k, conn in enumerate(M.configs_for(6)):
             units.append(("n=6 %s: residue class R16 (index = 16*(7j+%d)) of all groups in BFS order" % (conn, k),
                           [("idx", 6, i, [(i // 16) % 64], 0) for i in range(16 * k, g6.N, 16 * 7)], [conn], ["matrices"]))
+    # every graph, given in graph form (generators X_v Z_N(v)): as a Graph object and as signed strings
+    for n in (2, 3, 4, 5):
+        ng = 1 << (n * (n - 1) // 2)
+        units.append(("n=%d: ALL %d graphs in graph form (Graph object; strings with a sign pattern)" % (n, ng),
+                      [("gens", n, M.gens_str(B.graph_states_gens(n, gid), n), [0, (gid * 5 + 1) % (1 << n)] if not light else [(gid * 5 + 1) % (1 << n)])
+                       for gid in range(ng)], M.configs_for(n), ["graph", "strings"]))
+    confs6 = M.configs_for(6)
+    step6 = 16 if quick else 1
+    for k, conn in enumerate(confs6):
+        units.append(("n=6 %s: graphs in graph form, graph id = %d mod %d" % (conn, k, 7 * step6),
+                      [("gens", 6, M.gens_str(B.graph_states_gens(6, gid), 6), [gid % 64]) for gid in range(k, 1 << 15, 7 * step6)],
+                      [conn], ["strings"]))
     if thin > 1:
         # thin out the large families (deterministically: every thin-th spec); the small complete ones stay
         units = [(label + (" [every %d-th spec]" % thin if len(specs) > 600 else ""),
